@@ -46,6 +46,18 @@ CHECKS = {
               "the covered shapes are covered; larger shapes are outside the claim. Not an unbounded proof."),
         note="Trusted: z3 4.8.12, go/ssa, the /verif symbolic executor; ids assumed >= 0; Attach_benchmark_core is not covered.",
         design="DESIGN.md section 3, C10"),
+    "C15": dict(
+        category="proof",
+        text=("Parts 1 and 2 of the design, decided by SMT: for each of the 14 rule forms and each enumerated object/extra length, with field "
+              "bytes, tick and flags as solver variables, Add(String(r)) succeeds and appends exactly r (not suspended), and printing the "
+              "parsed rule gives the same text; every accepted short form (default extra) re-parses to the same rule after printing; "
+              "Del/Suspend/Reactivate with a symbolic index on lists of up to 3 (thorough: 5) rules change only the addressed rule, keep the "
+              "order, and reject an index >= length without changing anything. The compilation of rules into injection/report tables "
+              "(SimDrive/SimReport.Init) and the tick loops that apply them (cmd/bondmachine, SinglePipelineSimulate) are NOT covered: "
+              "'applied exactly as written during simulation' is outside this check's claim."),
+        note=("Trusted: z3, go/ssa, /verif/symgo; the decimal text of a 64-bit tick is an injective token (strconv.Atoi(strconv.Itoa(x)) == x), "
+              "ticks below 65536 use exact digit arithmetic; indices assumed >= 0."),
+        design="DESIGN.md section 3, C15 (parts 1-2)"),
     "C16": dict(
         category="proof",
         text=("Part (a) of the design, decided by SMT for every count within the stated ranges: procbuilder.Needed_bits, "
